@@ -7,7 +7,7 @@ from hypothesis import strategies as st
 
 from cpverif import spec as S
 from cpverif import strategies as G
-from cpverif.core import Ctx, Part, h64, hyp_part
+from cpverif.core import Ctx, Part, enum_part, h64, hyp_part
 from cpverif.lib import L
 from cpverif.model import TempoModel, td_us
 
@@ -19,7 +19,8 @@ RULE = (
     "tick-0 tempo, drop / shift the tick-0 time signature, duplicate tempo k's tick, swap tempo lines "
     "k and j (all k, j adjacent + one drawn far pair), zero tempo ('B 0', 'B 000') at k, 'Resolution = "
     "0' / '00', empty sync body, zero tempo appended after every event; plus direct "
-    "BPMEvents(resolution <= 0) and negative-tick queries. Oracle: outcome must be ValueError; zero "
+    "BPMEvents(resolution <= 0) and negative-tick queries; part fresh runs ten fixed untrustworthy charts as "
+    "the very first parse of a fresh interpreter (and after one other chart). Oracle: outcome must be ValueError; zero "
     "tempo not last => parse raises; last => parse raises iff some event or sustain end has tick >= "
     "its tick, otherwise the chart is returned, every query at or after that tick raises ValueError "
     "and earlier queries still agree with the uncorrupted chart. Non-trivial iff the corruption sits "
@@ -266,7 +267,54 @@ def check_case(ctx: Ctx, case) -> None:
                             "sync_example": faults[5][2][:6] if len(faults) > 5 else None})
 
 
+def fresh_cases(ctx: Ctx):
+    """Untrustworthy charts as the FIRST thing a fresh interpreter ever parses (no earlier, valid chart has
+    warmed anything up)."""
+    def chart(res, sync, body=("  0 = N 0 0", "  96 = N 1 0")):
+        return ("[Song]\n{\n  Resolution = %s\n}\n[SyncTrack]\n{\n%s}\n[Events]\n{\n  0 = E \"section a\"\n}\n"
+                "[ExpertSingle]\n{\n%s}\n") % (res, "".join(f"  {x}\n" for x in sync), "".join(b + "\n" for b in body))
+    texts = {
+        "zero_only_tempo": chart(192, ["0 = TS 4", "0 = B 0"]),
+        "zero_only_tempo_000": chart(192, ["0 = TS 4", "0 = B 000"]),
+        "zero_opening_tempo": chart(192, ["0 = TS 4", "0 = B 0", "384 = B 120000"]),
+        "zero_second_tempo": chart(480, ["0 = TS 4", "0 = B 120000", "48 = B 0"]),
+        "resolution_0": chart(0, ["0 = TS 4", "0 = B 120000"]),
+        "no_tempo_at_0": chart(192, ["0 = TS 4", "5 = B 120000"]),
+        "no_ts_at_0": chart(192, ["3 = TS 4", "0 = B 120000"]),
+        "duplicate_tempo_tick": chart(192, ["0 = TS 4", "0 = B 120000", "0 = B 90000"]),
+        "decreasing_tempo_ticks": chart(192, ["0 = TS 4", "0 = B 120000", "96 = B 90000", "48 = B 60000"]),
+        "empty_sync": chart(192, []),
+    }
+    for name, text in texts.items():
+        yield {"fault": name, "text": text}
+    # ... and the same after ONE other chart (valid or itself untrustworthy)
+    order = list(texts)
+    for i, name in enumerate(order):
+        yield {"fault": name, "text": texts[name], "before": texts[order[(i * 3 + 1) % len(order)]]}
+
+
+def check_fresh(ctx: Ctx, case) -> None:
+    from cpverif.props.c17 import run_job
+    texts = [case["text"]] + ([case["before"]] if case.get("before") else [])
+    ops = ([["parse", 1, None]] if case.get("before") else []) + [["parse", 0, None]]
+    res = run_job(texts, ops)
+    if "crash" in res:
+        ctx.fail("fresh-interpreter", f"{case['fault']}: the interpreter died: {res['crash'][-300:]}", case)
+        return
+    r = res["results"][-1]
+    if r.get("ok"):
+        ctx.fail("corruption-accepted", f"{case['fault']} as the first chart of a fresh interpreter"
+                                        f"{' (after one other chart)' if case.get('before') else ''}: the chart was "
+                                        f"accepted", case)
+    elif r["exc"][0] != "ValueError":
+        ctx.fail("rejected-with-ValueError", f"{case['fault']} in a fresh interpreter raised {r['exc'][0]}: "
+                                             f"{r['exc'][1][:200]} instead of ValueError", case)
+    ctx.note([case["fault"], bool(case.get("before"))], nontrivial=True, classes=["fresh_interpreter"],
+             sample={"fault": case["fault"], "after_another_chart": bool(case.get("before"))})
+
+
 PARTS: list[Part] = [
+    enum_part("fresh", fresh_cases, check_fresh, {"quick": 4, "thorough": 4}),
     hyp_part("faults", strat_cases, check_case, {"quick": 150, "thorough": 4500},
              {"quick": 8, "thorough": 16}),
 ]
